@@ -3,6 +3,7 @@ Error-handling utility code.
 """
 
 from inspect import getmro
+from threading import local
 
 
 class ErrorExtraction(object):
@@ -14,6 +15,8 @@ class ErrorExtraction(object):
 
     def __init__(self):
         self.registry = {}
+        # Set while the traceback of a failed extractor is being logged:
+        self._reporting = local()
 
     def register_exception_extractor(self, exception_class, extractor):
         """
@@ -45,7 +48,16 @@ class ErrorExtraction(object):
                 except:
                     from ._traceback import write_traceback
 
-                    write_traceback(logger)
+                    # Logging the extractor's own exception looks up
+                    # extractors again; if that fails too (e.g. an extractor
+                    # registered for a base class raising an exception it
+                    # covers itself) don't recurse forever.
+                    if not getattr(self._reporting, "active", False):
+                        self._reporting.active = True
+                        try:
+                            write_traceback(logger)
+                        finally:
+                            self._reporting.active = False
                     return {}
         return {}
 
